@@ -848,18 +848,21 @@ def _create_token_processor(
         else:
             enum_prefix = cwl_name_prefix
         # Return TokenProcessor
-        return CWLTokenProcessor(
-            name=port_name,
-            workflow=workflow,
-            token_type=port_type.type_,
-            enum_symbols=[
-                posixpath.relpath(
-                    utils.get_name(posixpath.sep, posixpath.sep, s), enum_prefix
-                )
-                for s in port_type.symbols
-            ],
-            expression_lib=expression_lib,
-            full_js=full_js,
+        return _create_token_processor_optional(
+            processor=CWLTokenProcessor(
+                name=port_name,
+                workflow=workflow,
+                token_type=port_type.type_,
+                enum_symbols=[
+                    posixpath.relpath(
+                        utils.get_name(posixpath.sep, posixpath.sep, s), enum_prefix
+                    )
+                    for s in port_type.symbols
+                ],
+                expression_lib=expression_lib,
+                full_js=full_js,
+            ),
+            optional=optional,
         )
     # Record type: -> ObjectTokenProcessor
     elif isinstance(port_type, cwl_utils.parser.RecordSchema):
